@@ -461,6 +461,7 @@ type logHist struct {
 	img          *logImage
 	torn         string // the crash cut a write to log.bin short: which part of a record
 	accepted     bool   // a recovery over this image succeeded with allowed content
+	keptOrphan   bool   // ... and left a trailing "header complete, body absent" in the file
 	appendsAfter int    // appends started afterwards (completed or in flight)
 }
 
@@ -486,7 +487,7 @@ func classifyLog(hist []*logHist, phase, step string, lost bool) string {
 	// absent" as end-of-log without repairing the file, what goes wrong after
 	// the next append (completed or in flight) is attributed to that.
 	for _, h := range hist {
-		if h.accepted && h.img.Tail == "orphan-header" {
+		if h.accepted && h.keptOrphan {
 			if h.appendsAfter > 0 {
 				return "orphan-header-accepted:next-append-corrupts"
 			}
@@ -510,15 +511,40 @@ func classifyLog(hist []*logHist, phase, step string, lost bool) string {
 		case "replay":
 			return "replay-error:" + tailAlias(x.Tail)
 		case "content":
-			if lost {
-				return "lost-returned-entry:" + tailAlias(x.Tail)
+			bucket := "torn-tail"
+			if x.Tail == "clean" || x.Tail == "no-file" {
+				bucket = "clean-tail"
 			}
-			return "unexpected-content:" + tailAlias(x.Tail)
+			if lost {
+				return "lost-returned-entry:" + bucket
+			}
+			return "unexpected-content:" + bucket
 		}
 	case "clean":
 		return "model-disagreement-after-recovery:" + step + ":" + tailAlias(x.Tail)
 	}
 	return phase + "-fails:" + step + ":" + tailAlias(x.Tail)
+}
+
+type pastState struct {
+	kind string // operation that produced the state
+	disk *sim.LogDisk
+}
+
+// contentSig classifies a recovered log that is none of the allowed states:
+// if it equals an earlier reference state, the operations that returned after
+// that state have been undone; otherwise entries are missing or wrong.
+func contentSig(hist []*logHist, past []pastState, o *logObs, allowed []*sim.LogDisk) string {
+	sig := classifyLog(hist, "recover", "content", lostEntries(o, allowed))
+	if !strings.HasPrefix(sig, "lost-returned-entry") && !strings.HasPrefix(sig, "unexpected-content") {
+		return sig
+	}
+	for j := len(past) - 2; j >= 0; j-- {
+		if o.equal(obsOfDisk(past[j].disk)) {
+			return "returned-operation-not-durable:" + past[j+1].kind
+		}
+	}
+	return sig
 }
 
 // lostEntries: the recovered log lacks entries that every allowed state has.
@@ -576,10 +602,16 @@ func RunLogCase(c *LogCase, record bool) (out *logOutcome) {
 		}
 	}
 	accept := func() {
-		if len(hist) > 0 {
-			hist[len(hist)-1].accepted = true
+		if n := len(hist); n > 0 {
+			hist[n-1].accepted = true
+			if hist[n-1].img.Tail == "orphan-header" {
+				hist[n-1].keptOrphan = inspectLog(dir).Tail == "orphan-header"
+			}
 		}
 	}
+	// every reference state the case went through, with the operation that
+	// produced it (to say which returned operation a recovery has undone)
+	past := []pastState{{"create", &sim.LogDisk{}}}
 	for si := range c.Stages {
 		st := &c.Stages[si]
 		last := si == len(c.Stages)-1
@@ -616,7 +648,7 @@ func RunLogCase(c *LogCase, record bool) (out *logOutcome) {
 			out.Checks++
 			disk := matchLog(obs, allowed)
 			if disk == nil {
-				out.Fail = failf(classifyLog(hist, "recover", "content", lostEntries(obs, allowed)), "recovered log %s is none of the allowed states %s; image: %s; case: %s", obs, allowedString(allowed), lastImage(hist), c)
+				out.Fail = failf(contentSig(hist, past, obs, allowed), "recovered log %s is none of the allowed states %s; image: %s; case: %s", obs, allowedString(allowed), lastImage(hist), c)
 				return
 			}
 			accept()
@@ -650,6 +682,7 @@ func RunLogCase(c *LogCase, record bool) (out *logOutcome) {
 					out.Fail = failf(classifyLog(hist, "clean", "content:"+op.Op, false), "after %s the log reads %s, the reference model %s; case: %s", op, ro, mo, c)
 					return
 				}
+				past = append(past, pastState{op.Op, disk.Clone()})
 				bounds = append(bounds, len(inj.Trace))
 			}
 			if st.Crash == nil {
@@ -702,7 +735,7 @@ func RunLogCase(c *LogCase, record bool) (out *logOutcome) {
 	out.Recovered = obs.String()
 	disk := matchLog(obs, allowed)
 	if disk == nil {
-		out.Fail = failf(classifyLog(hist, "recover", "content", lostEntries(obs, allowed)), "recovered log %s is none of the allowed states %s; crashed during %s at %s; image: %s; case: %s", obs, allowedString(allowed), out.Inflight, out.HitCall, lastImage(hist), c)
+		out.Fail = failf(contentSig(hist, past, obs, allowed), "recovered log %s is none of the allowed states %s; crashed during %s at %s; image: %s; case: %s", obs, allowedString(allowed), out.Inflight, out.HitCall, lastImage(hist), c)
 		return
 	}
 	accept()
